@@ -513,7 +513,7 @@ def run(ctx):
     if not isinstance(v, float) or v == v:
         ctx.fail("NaN decoded wrongly", {"text": "NaN"}, repr(v), "nan")
     # ---- strings: the value is the text, blanks at either end included (xsd:string does not collapse white space)
-    for sv in ["s", " lead", "trail ", " both ", "a  b", "0", " 7 ", "true "]:
+    for sv in ["s", " lead", "trail ", " both ", "a  b", "0", " 7 ", "true ", "a\tb", "l1\nl2", "\tlead-tab", "end\n"]:
         ctx.case(("string", sv), sv != "s")
         t = wire.send("st", sv)
         if t != sv:
